@@ -40,7 +40,7 @@ theorem after_cursor_wide (W : Widths) (hblank : cellW W ' ' = 1) (fr : Text) (c
     cursor is at least one column wide -/
 def RenderDomain (W : Widths) (c : Cfg) (tw height w : Nat) (wrap : Bool) (text : Text) (cur : Nat)
     (s : Scroll) : Prop :=
-  (tw : Int) - ((if c.margin then numberedMarginWidth (contentLines c.procs text).length else 0 : Nat) : Int) = w ∧
+  c.bodyWidth W tw (contentLines c.procs text).length = (w : Int) ∧
   1 ≤ w ∧ 1 ≤ height ∧
   (∀ f, c.prefixFn = some f → ∀ l k, cellsWidth W (f l k) < w ∧ textWidth W (f l k) = cellsWidth W (f l k)) ∧
   (wrap = true →
@@ -88,7 +88,7 @@ theorem render_cursor_shown {W : Widths} (hdm : W.dm = true) (hblank : cellW W '
   simp only [hcX, hw]
   refine ⟨_, rfl, rfl, ?_⟩
   simp only []
-  generalize (if c.margin then numberedMarginWidth (contentLines c.procs text).length else 0) = mw at *
+  generalize c.leftWidth W (contentLines c.procs text).length = mw at *
   cases wrap with
   | true =>
     obtain ⟨hregc, hrest⟩ := hwr rfl
